@@ -131,6 +131,9 @@ def c09(tier):
     ]
     for s in fam:
         run_scn(v, wd, "C09", s)
+    # tasks and timers of a module that is shut down and restarted (requested from a task)
+    import c_async
+    c_async.family(v, wd, "C09", "life", 2, "ProgsLife", 16, what="module restarted from a task while another task has timers pending")
     v.cov["rule"] = ("lifecycle scripts chosen by TLC: module b shuts down / shuts down and restarts (after 0, 1, 2 ticks) from message "
                      "handlers while a keeps sending and scheduling (messages in transit at shutdown, arrivals at the restart instant, "
                      "repeated cycles, one- and two-stage start-up); a transit module c going down while a sends through its gate. The "
